@@ -266,7 +266,7 @@ impl<'a, T: IteTable<'a, BddPtr<'a>> + Default> RobddBuilder<'a, T> {
         }
 
         match bdd {
-            BddPtr::Reg(node) => {
+            BddPtr::Reg(node) if self.order.borrow().get(node.var) == current => {
                 let smoothed_node = BddNode::new(
                     node.var,
                     self.smooth_helper(node.low, current + 1, total),
@@ -274,8 +274,12 @@ impl<'a, T: IteTable<'a, BddPtr<'a>> + Default> RobddBuilder<'a, T> {
                 );
                 self.get_or_insert(smoothed_node)
             }
-            BddPtr::Compl(node) => self.smooth_helper(BddPtr::Reg(node), current, total).neg(),
-            BddPtr::PtrTrue | BddPtr::PtrFalse => {
+            BddPtr::Compl(node) if self.order.borrow().get(node.var) == current => {
+                self.smooth_helper(BddPtr::Reg(node), current, total).neg()
+            }
+            // a constant, or a node whose variable comes after the current level: the variable at the
+            // current level is a don't-care here
+            _ => {
                 let var = self.order.borrow().var_at_level(current);
                 let smoothed_node = BddNode::new(
                     var,
